@@ -235,6 +235,8 @@ func TestVerifC16Stress(t *testing.T) {
 	}
 	done := make(chan struct{})
 	n := 0
+	inflight := map[int]int{}
+	var inflightMu sync.Mutex
 	for _, line := range vio.ops {
 		var k int
 		if _, err := fmt.Sscanf(line, "stress %d", &k); err != nil {
@@ -283,7 +285,44 @@ func TestVerifC16Stress(t *testing.T) {
 		for ; n > 0; n-- {
 			<-done
 		}
-		vio.emit("done")
+		if line == vio.ops[0] {
+			// let the periodic clean-up (period 1 s, first pass at t=0) run a pass AFTER requests have populated the
+			// maps, and a batch after that pass
+			// requests must be IN FLIGHT when that pass runs (every handler starts by taking state.Mutex, which
+			// orders anything that begins after a pass behind it): keep four users submitting codes for 1.3 s
+			var wg sync.WaitGroup
+			deadline := time.Now().Add(1300 * time.Millisecond)
+			for i := 0; i < 4; i++ {
+				user := fmt.Sprintf("user%d", i)
+				wg.Add(1)
+				go func() {
+					defer wg.Done()
+					defer func() { recover() }()
+					for time.Now().Before(deadline) {
+						// forget the user's limiter entry (under ITS mutex, as validateUserTOTP does), so that the
+						// request below passes the 2 s gate and writes the map again instead of only reading it
+						state.totpLocalTateLimitMutex.Lock()
+						delete(state.totpLocalRateLimit, user)
+						state.totpLocalTateLimitMutex.Unlock()
+						form := neturl.Values{}
+						form.Set("OTP", "123456")
+						req := vfFormPost(totpAuthPath, form)
+						req.AddCookie(vfAuthCookie(t, state, user, AuthTypePassword))
+						rr, _ := vfServe(state.TOTPAuthHandler, req)
+						if rr != nil {
+							inflightMu.Lock()
+							inflight[rr.Code]++
+							inflightMu.Unlock()
+						}
+					}
+				}()
+			}
+			wg.Wait()
+			state.totpLocalTateLimitMutex.Lock()
+			inflight[-2] = len(state.totpLocalRateLimit)
+			state.totpLocalTateLimitMutex.Unlock()
+		}
+		vio.emit("done %v", inflight)
 	}
 }
 
